@@ -38,7 +38,7 @@ def main():
         for k,v in MUT.items(): print(k, ",".join(v[3]))
         return
     if sys.argv[1] == "revert":
-        subprocess.check_call(["git","-C","/repo","checkout","--","."])
+        subprocess.check_call(["git","-C","/repo","diff","--quiet","--cached"]); subprocess.check_call(["git","-C","/repo","checkout","--","main.go","pkg/moq/moq.go","pkg/moq/formatter.go","internal/registry/registry.go","internal/registry/package.go","internal/registry/method_scope.go","internal/registry/var.go","internal/template/template.go","internal/template/template_data.go"])
         return
     name = sys.argv[2]
     f, old, new, _ = MUT[name]
